@@ -19,6 +19,7 @@ def plan(ctx):
     cases = [("grid", n) for n in range(1, N + 1)]
     cases += [("random", i) for i in range(400 if ctx.thorough else 60)]
     cases += [("runworker", i) for i in range(60 if ctx.thorough else 16)]
+    cases += [("huge", i) for i in range(200 if ctx.thorough else 40)]
     return cases
 
 
@@ -202,6 +203,31 @@ def run_case(ctx, g):
         start = int(rng.integers(0, 10**5))
         use_arr = bool(rng.random() < 0.3) and n < 5000
         one(ctx, g, n, nb, start, use_arr, rng=rng)
+    elif kind == "huge":
+        # counts beyond 32-bit (and around the 2^31 / 2^32 / 2^63 boundaries): Python ints do not wrap, a
+        # vectorised rewrite with a fixed-width dtype would
+        base = int(rng.choice([2**31, 2**32, 2**40, 2**53, 2**62]))
+        n = base + int(rng.integers(-3, 1000)) if rng.random() < 0.7 else int(rng.integers(2**31, 2**34))
+        nb = int(rng.choice([rng.integers(1, 64), 1, 2, 16, 33]))
+        start = int(rng.choice([0, 1, 2**31 - 1, 2**32 + 5, rng.integers(0, 2**33)]))
+        if rng.random() < 0.3:      # the sum crosses the boundary although both terms are below it
+            n, start = 2**31 - int(rng.integers(1, 50)), int(rng.integers(40, 1000))
+        ctx.count("huge")
+        one(ctx, g, n, nb, start, False, rng=rng)
+        if rng.random() < 0.3:
+            # array form with a lazy sequence (a range object is sliceable and costs nothing)
+            from thejoker.utils import batch_tasks
+            arr = range(7, 7 + n)
+            tasks = batch_tasks(n, nb, arr=arr, start_idx=0)
+            m = ctx.model({"op": "batch.tasks", "n": n, "nb": nb, "start": 0})["tasks"]
+            impl = [[t[0].start - 7, t[0].stop - 7] if len(t[0]) else [None, None] for t in tasks]
+            ctx.evaluated("batch_tasks=Batch.batchTasks", (n, nb, 0, "range"))
+            ok = impl == m and [int(t[1]) for t in tasks] == [p_[0] for p_ in m] and all(t[0].step == 1 for t in tasks)
+            if not ok:
+                ctx.violation("batch_tasks=Batch.batchTasks", g, dict(n_tasks=n, n_batches=nb, start_idx=0, arr="range(7, 7+n)"),
+                              dict(tasks=impl[:6]), dict(tasks=m[:6]),
+                              "array batches must be exactly the consecutive slices of the supplied sequence, each with its own start index",
+                              tags=dict(form="arr"))
     elif kind == "runworker":
         runworker_case(ctx, g, rng)
 
@@ -214,6 +240,7 @@ def post(ctx):
     ctx.require("remainder cases", ctx.counters["remainder"], 100)
     ctx.require("n_batches>n_tasks cases", ctx.counters["nb>n"], 50)
     ctx.require("array-form cases", ctx.counters["form:arr"], 100)
+    ctx.require("task counts beyond 2^31", ctx.counters["huge"], 20)
     ctx.require("run_worker with samples_idx", ctx.counters["runworker:idx"], 1)
     for p in _files.values():
         shutil.rmtree(os.path.dirname(p), ignore_errors=True)
